@@ -168,3 +168,26 @@ Proof.
   intros H m. split; [apply m_run_inv, inv_m_adds, inv_empty|]. split; [|apply m_get_newest].
   unfold m. rewrite m_run_hist by exact H. rewrite getlist_m_adds. reflexivity.
 Qed.
+
+(* two live modicts: an operation on one never changes the other, also when it takes the other as its
+   argument (reorder / update); and both stay consistent over every op sequence *)
+Lemma m2_other_unchanged (a b : mod_) x :
+  match x with
+  | OnA _ | AReorderB | AUpdateB => snd (fst (m2_step (a, b) x)) = b
+  | OnB _ | BReorderA | BUpdateA => fst (fst (m2_step (a, b) x)) = a
+  end.
+Proof. destruct x; cbn [m2_step]; try reflexivity; [destruct (m_step a x) | destruct (m_step b x)]; reflexivity. Qed.
+
+Lemma m2_step_inv (s : mod_ * mod_) x : inv (fst s) /\ inv (snd s) ->
+  inv (fst (fst (m2_step s x))) /\ inv (snd (fst (m2_step s x))).
+Proof.
+  destruct s as [a b]. cbn [fst snd]. intros [Ha Hb]. destruct x; cbn [m2_step].
+  - pose proof (m_step_inv a x Ha). destruct (m_step a x). cbn in *. tauto.
+  - pose proof (m_step_inv b x Hb). destruct (m_step b x). cbn in *. tauto.
+  - cbn. split; [apply m_reorder_inv, Ha | exact Hb].
+  - cbn. split; [exact Ha | apply m_reorder_inv, Hb].
+  - cbn. split; [apply inv_m_adds, Ha | exact Hb].
+  - cbn. split; [exact Ha | apply inv_m_adds, Hb].
+Qed.
+Lemma m2_run_inv ops : forall s, inv (fst s) /\ inv (snd s) -> inv (fst (m2_run s ops)) /\ inv (snd (m2_run s ops)).
+Proof. induction ops as [|x ops IH]; cbn [m2_run]; intros s H; [exact H|]. apply IH, m2_step_inv, H. Qed.
